@@ -4,7 +4,7 @@ namespace Driver.C16
 open Lean Pint.Series
 
 def vstr : Verdict → String
-  | .none => "none" | .alerts => "alerts" | .error => "error" | .information => "information"
+  | .none => "none" | .unknownAlert => "unknown-alert" | .error => "error" | .information => "information"
   | .bug => "bug" | .warning => "warning" | .later => "later"
 
 /-- op: seriesverdict {probe fields} → verdict -/
@@ -15,7 +15,7 @@ def seriesverdict (args : List String) : String :=
     | .ok j =>
       let b := fun (f : String) => (j.getObjValD f).getBool?.toOption.getD false
       let n := fun (f : String) => (j.getObjValD f).getNat?.toOption.getD 0
-      vstr (verdict { isAlerts := b "isAlerts", disabled := b "disabled", snoozed := b "snoozed", instantErr := b "instantErr",
+      vstr (verdict { isAlerts := b "isAlerts", alertNamed := b "alertNamed", alertRuleStays := b "alertRuleStays", disabled := b "disabled", snoozed := b "snoozed", instantErr := b "instantErr",
                       instantCount := n "instantCount", bareEmpty := b "bareEmpty", baseErr := b "baseErr", baseRanges := n "baseRanges",
                       producer := b "producer", otherServers := b "otherServers", ignored := b "ignored" })
   | _ => "bad-op"
